@@ -52,7 +52,9 @@ CFG = {
             "inner sockets: in-memory PacketConn (obfsPacketConn), in-memory UDP-like conn (obfsPacketConnUDP) and real *net.UDPConn on "
             "loopback in every A/B combination. hash ops (8%): x/crypto vs Lean BLAKE2b on 0..400 bytes incl. block boundaries. new ops (5%): "
             "PSK gate, wrapper type, SetReadBuffer/SetWriteBuffer/SyscallConn pass-through. conc ops (0.5%): one looped-back socket, 1..4 "
-            "writers x 1..12 packets, 1..4 readers, 0..10 junk datagrams injected concurrently (thorough: under -race). distinct = distinct "
+            "writers x 1..12 packets, 1..4 readers, 0..10 junk datagrams injected concurrently (thorough: under -race). duplex ops (one per 1000 "
+            "ops + 3 in the corpus): ONE receive loop against ONE send loop on the same socket, 3000 packets each way, 16-byte and 1 KiB "
+            "keys alternating, inbound datagrams built with the PROTOCOL.md reference, every packet spec-checked in both directions. distinct = distinct "
             "op line; non-trivial = at least one payload of 1..2040 bytes had to arrive (xfer/conc), every hash/new op",
     "trusted_base": [
         "the inner socket's ReadFrom copies min(len(datagram), len(buf)) bytes of ONE datagram and reports that count; its WriteTo sends "
@@ -60,7 +62,9 @@ CFG = {
         "sockets behave so)",
         "math/rand.(*Rand).Read fills all 8 salt bytes (the salt actually used is read off the captured wire and given to the model)",
         "atomicity: one WriteTo call (writeMutex region incl. the obfuscator's lk region) and one ReadFrom loop iteration (readMutex "
-        "region) are atomic steps of the schedule model; supported by the -race stress of the thorough tier, not proved",
+        "region) are atomic steps of the schedule model; not proved; supported by go/ast facts regenerated on every run (Obfuscate and "
+        "Deobfuscate each touch the shared keyInput scratch buffer only inside their o.lk region — theorem "
+        "key_scratch_buffer_locked_in_both_directions), by the reader-against-writer `duplex` ops and by the -race stress of the thorough tier",
         "the Lean BLAKE2b (Hy/Crypto/Blake2b.lean) is BLAKE2b: RFC 7693 App. A and hashlib vectors at build (two of them evaluated by "
         "the Lean kernel as theorems, the multi-block ones by #guard), x/crypto differential (op hash) and hashlib cross-check on every run",
         "the model Hy.Model.Salamander is tied to extras/obfs/salamander.go and conn.go by the differential stream `salamander` (wire "
